@@ -12,7 +12,8 @@ Correspondence    COMPLETE streams: every (C,T,R,B,L) in 0..8 through the real _
                   Evoloop, once as a plain 3x3 ndarray block and once as the masked von Neumann block evolve2d passes;
                   729 answers per case packed into one hex numeral; compared with the model inside Coq, in order.
                   Plus: rule_table property, explicit 3x3 blocks, one-step evolve2d grids, random user tables through
-                  cpl.CTRBLRule (all keys of the state space, ValueError class exact).
+                  cpl.CTRBLRule (all keys of the state space, ValueError class exact), and the no-aliasing bucket
+                  user/alias/*: the caller's dict is edited after construction, the rule must not change.
 """
 import atexit
 import os
@@ -180,6 +181,30 @@ def run_impl(c):
                                 codes.append(_code(rule, n, (1, 1), 1))
             return [tbl, codes]
         return list(call_impl(go, timeout=60))
+    if op == 'alias':
+        def go():
+            d = {tuple(k): v for k, v in c['items']}
+            rule = cpl.CTRBLRule(d, add_rotations=c['add_rot'])
+            # the caller goes on editing ITS dict after the rule exists
+            for k, v in c['edits']:
+                if v < 0:
+                    d.pop(tuple(k), None)
+                else:
+                    d[tuple(k)] = v
+            if c.get('clear'):
+                d.clear()
+            ns = c['ns']
+            n, data = _mk_block(c.get('masked', False))
+            codes = []
+            for cc in range(ns):
+                for t in range(ns):
+                    for r in range(ns):
+                        for b in range(ns):
+                            for l in range(ns):
+                                _fill(data, (cc, t, r, b, l), cc + t + r + b + l + 3)
+                                codes.append(_code(rule, n, (1, 1), 1))
+            return [_items(rule.rule_table), codes]
+        return list(call_impl(go, timeout=60))
     if op == 'userq':
         def go():
             d = {tuple(k): v for k, v in c['items']}
@@ -236,6 +261,12 @@ def to_coq(c, obs):
         chunks = [codes[i:i + 729] for i in range(0, len(codes), 729)]
         return '(CUser %s %s %s %s %s)' % (ctable(c['items']), cbool(c['add_rot']), cnat(c['ns']), ctable(tbl),
                                            '[' + '; '.join(_pack(ch) for ch in chunks) + ']')
+    if op == 'alias':
+        tbl, codes = ([], []) if bad else obs[1]
+        chunks = [codes[i:i + 729] for i in range(0, len(codes), 729)]
+        edits = list(c['edits']) + ([[k, -1] for k, _ in c['items']] if c.get('clear') else [])
+        return '(CAlias %s %s %s %s %s %s)' % (ctable(c['items']), cbool(c['add_rot']), cnat(c['ns']), ctable(edits),
+                                              ctable(tbl), '[' + '; '.join(_pack(ch) for ch in chunks) + ']')
     if op == 'userq':
         tbl, answers = ([], [['exc', 'OtherError']] * len(c['queries'])) if bad else obs[1]
         qs = '[' + '; '.join('(%s, %s)' % (cgrid(n), cres(a, cz)) for n, a in zip(c['queries'], answers)) + ']'
@@ -251,7 +282,7 @@ def nontrivial(c, obs):
     op = c['op']
     if op == 'stream':
         return any(d <= 8 for d in obs[1])
-    if op == 'user':
+    if op in ('user', 'alias'):
         return any(d <= 8 for d in obs[1][1])
     if op == 'userq':
         return any(a[0] == 'ok' for a in obs[1][1])
@@ -334,6 +365,24 @@ def generate(rng, tier):
         yield {'kind': 'user/%s/%s' % ('conflicts' if conflicts else 'one-image', 'rotations' if add_rot else 'plain'),
                'op': 'user', 'items': _user_table(rng, ns, conflicts), 'add_rot': add_rot, 'ns': ns,
                'masked': i % 5 == 0}
+    # ---- no aliasing: the caller edits its dict AFTER the rule was constructed (delete / add / re-image); the rule
+    #      must keep answering with the table it was constructed with
+    na = 100 if tier == 'quick' else 1500
+    for i in range(na):
+        ns = rng.choice([2, 2, 3, 3, 4])
+        add_rot = i % 2 == 0
+        items = _user_table(rng, ns, conflicts=i % 4 >= 2)
+        while not items:
+            items = _user_table(rng, ns, conflicts=i % 4 >= 2)
+        edits = []
+        present = [k for k, _ in items]
+        for k in rng.sample(present, rng.randint(1, max(1, len(present) // 2))):
+            edits.append([k, -1] if rng.random() < 0.5 else [k, rng.randrange(9)])         # delete / change image
+        for _ in range(rng.randint(1, 6)):
+            edits.append([[rng.randrange(ns) for _ in range(5)], rng.randrange(9)])        # new keys
+        rng.shuffle(edits)
+        yield {'kind': 'user/alias/%s' % ('rotations' if add_rot else 'plain'), 'op': 'alias', 'items': items,
+               'add_rot': add_rot, 'ns': ns, 'edits': edits, 'clear': i % 10 == 9, 'masked': i % 5 == 0}
     # ---- user tables over arbitrary integers, explicit blocks (present keys, their turns, absent keys)
     nq = 150 if tier == 'quick' else 1500
     pool = [-7, -1, 0, 1, 2, 3, 8, 9, 15, 16, 17, 255, 256, 2 ** 31 - 1, 2 ** 40 + 1]
@@ -381,6 +430,14 @@ def shrink(c):
             yield dict(c, items=items[:i] + items[i + 1:])
         if c['ns'] > 1:
             yield dict(c, ns=c['ns'] - 1)
+    if op == 'alias':
+        if c.get('clear'):
+            yield dict(c, clear=False)
+        for i in range(len(c['edits'])):
+            yield dict(c, edits=c['edits'][:i] + c['edits'][i + 1:])
+        items = c['items']
+        for i in range(len(items)):
+            yield dict(c, items=items[:i] + items[i + 1:])
     if op == 'userq':
         if len(c['queries']) > 1:
             for i in range(len(c['queries'])):
